@@ -45,18 +45,31 @@ package utils
 
 // CleanPath (C07, safety slice): no index leaves the string or the lazily created buffer, for every input.
 // lead: 1 when a slash is prepended (p does not start with one). The write position never overtakes the read
-// position (shifted by lead), and once the input is exhausted with a pending trailing slash there is room for it.
+// position (shifted by lead); before an element that needs a separator there is one byte of slack (the slash
+// consumed from the input), and a pending trailing slash has its byte of slack too.
 //@ macro cpLead(p) = ite(p[0] == '/', 0, 1)
+//@ macro cpBuf(p, buf, n) = oldMemKept() && fresh(buf) && (cpLead(p) == 1 ==> len(buf) == n + 1) && (cpLead(p) == 0 ==> len(buf) == 0 || len(buf) == n)
 //@ func bufApp(buf, s, w, c)
-//@   requires buf != nil && 0 <= w && w < len(s) + 1 && (len(*buf) == 0 ==> w < len(s) && cap(*buf) >= 0) && (len(*buf) != 0 ==> w < len(*buf))
-//@   modifies *buf, mem
+//@   props C07
+//@   requires buf != nil && 0 <= w && len(s) < 281474976710656 && (len(*buf) == 0 ==> w < len(s)) && (len(*buf) != 0 ==> w < len(*buf))
+//@   modifies *buf, bytes(*buf), spare(*buf)
 //@   allocates
-//@   ensures len(*buf) == 0 || len(*buf) == old(len(*buf)) || (old(len(*buf)) == 0 && len(*buf) == len(s))
+//@   ensures (fresh(*buf) || sameArray(*buf, old(*buf))) && (old(len(*buf)) != 0 ==> len(*buf) == old(len(*buf))) && (old(len(*buf)) == 0 ==> len(*buf) == 0 || len(*buf) == len(s))
 
 //@ func CleanPath(p) r
+//@   props C07
+//@   requires len(p) < 281474976710656
 //@   allocates
 //@   loop 0:
-//@     invariant 0 <= r && r <= n && n == len(p) && 1 <= w && w <= r + cpLead(p) && (r == 0 ==> cpLead(p) == 1)
-//@     invariant len(buf) == 0 || len(buf) == n + cpLead(p)
-//@     invariant cpLead(p) == 1 ==> len(buf) == n + 1
-//@     invariant trailing && r == n ==> w < n + cpLead(p)
+//@     invariant n == len(p) && n >= 1 && 0 <= r && r <= n + 1 && 1 <= w && w <= r + cpLead(p) && w <= n + cpLead(p) && (cpLead(p) == 0 ==> r >= 1)
+//@     invariant cpBuf(p, buf, n)
+//@     invariant r < n && p[r] != '/' && w > 1 ==> w + 1 <= r + cpLead(p)
+//@     invariant trailing ==> (n > 1 && p[n-1] == '/') || (r >= n && w + 1 <= n + cpLead(p))
+//@     invariant trailing && r >= n ==> w + 1 <= n + cpLead(p)
+//@   loop 1:
+//@     invariant 1 <= w && w + 3 <= r + cpLead(p) && w + 2 <= n + cpLead(p) && oldMemKept()
+//@   loop 2:
+//@     invariant 1 <= w && w + 3 <= r + cpLead(p) && w + 2 <= n + cpLead(p) && oldMemKept()
+//@   loop 3:
+//@     invariant 0 <= r && r <= n && 1 <= w && w <= r + cpLead(p) && cpBuf(p, buf, n) && (cpLead(p) == 0 ==> r >= 1)
+//@     invariant trailing ==> n > 1 && p[n-1] == '/' && r < n
